@@ -49,6 +49,9 @@ pub uninterp spec fn binary_view(b: Binary) -> Seq<u8>;
 pub uninterp spec fn mk_binary(b: Seq<u8>) -> Binary;
 pub broadcast axiom fn ax_binary_mk(b: Seq<u8>) ensures #[trigger] binary_view(mk_binary(b)) == b;
 pub broadcast axiom fn ax_binary_ext(a: Binary, b: Binary) requires #[trigger] binary_view(a) == #[trigger] binary_view(b) ensures a == b;
+/// derived (proved from the two axioms above): mk_binary is the inverse of the view
+pub broadcast proof fn lemma_binary_mk_view(b: Binary) ensures mk_binary(#[trigger] binary_view(b)) == b
+{ ax_binary_mk(binary_view(b)); ax_binary_ext(mk_binary(binary_view(b)), b); }
 impl View for Binary { type V = Seq<u8>; open spec fn view(&self) -> Seq<u8> { binary_view(*self) } }
 impl Clone for Binary { #[verifier::external_body] fn clone(&self) -> (r: Self) ensures r == *self { unimplemented!() } }
 /// assumed total for the message types used here (plain derive(Serialize) structs/enums)
@@ -429,5 +432,5 @@ impl Response {
     #[verifier::external_body] pub fn set_data(self, d: Binary) -> (r: Response)
         ensures r.messages@ == self.messages@, r.data == Some(d) { unimplemented!() }
 }
-pub broadcast group group_cw_axioms { ax_string_ext, ax_mk_string, ax_de_ser, ax_dec_enc_key, ax_enc_str, ax_enc_u64, ax_enc_pair, ax_prefix_entries_sound, ax_prefix_entries_sorted, ax_binary_mk, ax_binary_ext, ax_raw_bank_balance, ax_raw_smart, lemma_coins_view_empty, lemma_coins_view_one, ax_to_string_string, vstd::string::to_string_from_display_ensures_for_str }
+pub broadcast group group_cw_axioms { ax_string_ext, ax_mk_string, ax_de_ser, ax_dec_enc_key, ax_enc_str, ax_enc_u64, ax_enc_pair, ax_prefix_entries_sound, ax_prefix_entries_sorted, ax_binary_mk, ax_binary_ext, lemma_binary_mk_view, ax_raw_bank_balance, ax_raw_smart, lemma_coins_view_empty, lemma_coins_view_one, ax_to_string_string, vstd::string::to_string_from_display_ensures_for_str }
 //@broadcast group_cw_axioms
